@@ -29,6 +29,9 @@ class Problem:
     def enabled(self, state, hist):
         return self.ops
 
+    def dispose(self, state):
+        """release what a replayed state holds (worker threads); called when the explorer is done with it"""
+
 
 def canon_compiler(m):
     """Canonical, hashable summary of every field later operations read."""
@@ -54,6 +57,7 @@ def bfs(problem, max_depth, acc, max_states=None, on_state=None, shard=None):
     """Depth-iterated BFS.  Returns dict(states, transitions, depth_completed, fixpoint)."""
     s0 = problem.new()
     k0 = problem.canon(s0)
+    problem.dispose(s0)
     nokey = isinstance(k0, tuple) and k0 and k0[0] == 'NOKEY'
     seen = {k0 if not nokey else ()}
     frontier = [()]
@@ -75,6 +79,7 @@ def bfs(problem, max_depth, acc, max_states=None, on_state=None, shard=None):
                 for o in hist:
                     problem.step(base, o)
                 ops = list(problem.enabled(base, hist))
+                problem.dispose(base)
             for op in ops:
                 st = problem.new()
                 for o in hist:
@@ -94,6 +99,7 @@ def bfs(problem, max_depth, acc, max_states=None, on_state=None, shard=None):
                     nxt.append(hist + (op,))
                     if on_state:
                         on_state(st, hist + (op,))
+                problem.dispose(st)
                 if max_states and states >= max_states:
                     capped = True
                     break
@@ -108,3 +114,36 @@ def bfs(problem, max_depth, acc, max_states=None, on_state=None, shard=None):
             break
     return dict(states=states, transitions=transitions, depth_completed=depth_completed,
                 fixpoint=fixpoint, capped=capped, nokey=nokey)
+
+
+class Worker:
+    """a real thread that executes callables handed to it one at a time (the caller waits): lets a history place each of
+    its operations on one of several threads, deterministically"""
+
+    def __init__(self):
+        import queue
+        import threading
+        self.q, self.r = queue.Queue(), queue.Queue()
+        self.t = threading.Thread(target=self._loop, daemon=True)
+        self.t.start()
+
+    def _loop(self):
+        while True:
+            f = self.q.get()
+            if f is None:
+                return
+            try:
+                self.r.put(('ok', f()))
+            except BaseException as exc:     # noqa
+                self.r.put(('exc', exc))
+
+    def call(self, f):
+        self.q.put(f)
+        k, v = self.r.get()
+        if k == 'exc':
+            raise v
+        return v
+
+    def stop(self):
+        self.q.put(None)
+        self.t.join(10)
